@@ -89,3 +89,82 @@ contract(
     ensures={"the-scope-is-closed-again": "len(self.contexts) == old(len(self.contexts))"},
     from_property="bound ... by def ... or a function parameter (parameters belong to the function's own scope, its name to the enclosing one)",
 )
+
+
+# ---- the binding visitors: each one binds exactly the names Python binds, in the innermost scope ------------------------------
+ALIAS = Rec("alias", name=Str, asname=Union(NoneT, Str))
+IMPORT = Obj("Import", names=Seq(ALIAS))
+TOPN = "(node.names[j].asname if node.names[j].asname is not None else node.names[j].name.partition('.')[0])"
+TOP = len("len(self.contexts) - 1") and "self.contexts[len(self.contexts) - 1]"
+for _v, _bound, _why in (
+        ("visit_Import", TOPN, "`import a.b.c` binds a; `import a.b as x` binds x"),
+        ("visit_ImportFrom", "(node.names[j].asname if node.names[j].asname is not None else node.names[j].name)", "`from m import n` binds n; `... as x` binds x")):
+    contract(
+        A + "CtxAwareTransformer." + _v, "C02", params=dict(self=T_, node=IMPORT), modifies=["self.contexts"],
+        calls={"CtxAwareTransformer.ctxadd": A + "CtxAwareTransformer.ctxadd"},
+        requires={"inside-a-transform": "len(self.contexts) >= 2"},
+        loops={"for#1": dict(invariant={
+            "bound-so-far": "len(self.contexts) == pre(len(self.contexts)) and forall(lambda j: %s in %s, 0, _i)" % (_bound, TOP),
+            "other-scopes-untouched": "forall(lambda k: self.contexts[k] == pre(self.contexts)[k], 0, len(self.contexts) - 1)",
+            "innermost-scope-only-grows": "forall_str(lambda x: implies(x in pre(self.contexts)[len(self.contexts) - 1], x in %s))" % TOP},
+            havoc_only=[], havoc_exprs=["self.contexts"])},
+        ensures={"binds-the-name-python-binds-for-every-clause": "len(self.contexts) == old(len(self.contexts)) and forall(lambda j: %s in %s, 0, len(node.names))" % (_bound, TOP),
+                 "in-the-innermost-scope-only": SAME_BELOW},
+        from_property="bound earlier in the same source by ... import (%s)" % _why,
+    )
+
+NAMES_EXT = {
+    "leftmostname": Ext(ret=Str, pure=True, uf="leftmost", note="the name an assignment target binds (ghost: helper not verified)"), "leftmost": Ext(ret=Str, pure=True, uf="leftmost"),
+    "self.generic_visit": VISIT_EXT["self.generic_visit"], "CtxAwareTransformer.generic_visit": VISIT_EXT["CtxAwareTransformer.generic_visit"],
+}
+ANN = Obj("AnnAssign", target=Opaque("target"))
+contract(
+    A + "CtxAwareTransformer.visit_AnnAssign", "C02", params=dict(self=T_, node=ANN), modifies=["self.contexts"], externals=NAMES_EXT,
+    calls={"CtxAwareTransformer.ctxadd": A + "CtxAwareTransformer.ctxadd"},
+    requires={"inside-a-transform": "len(self.contexts) >= 2"},
+    asserts=[dict(before="self.generic_visit(node)", label="the-target-is-bound-before-the-value-is-visited",
+                  clause="len(self.contexts) == old(len(self.contexts)) and leftmost(node.target) in %s and %s" % (TOP, SAME_BELOW))],
+    ensures={"depth-kept": "len(self.contexts) == old(len(self.contexts))"},
+    from_property="bound earlier in the same source by assignment (annotated form)",
+)
+WALRUS = Obj("NamedExpr", target=Obj("Name", id=Str))
+contract(
+    A + "CtxAwareTransformer.visit_NamedExpr", "C02", params=dict(self=T_, node=WALRUS), modifies=["self.contexts"], externals=NAMES_EXT,
+    calls={"CtxAwareTransformer.ctxadd": A + "CtxAwareTransformer.ctxadd"},
+    requires={"inside-a-transform": "len(self.contexts) >= 2"},
+    asserts=[dict(before="self.generic_visit(node)", label="the-walrus-target-is-bound",
+                  clause="len(self.contexts) == old(len(self.contexts)) and node.target.id in %s and %s" % (TOP, SAME_BELOW))],
+    ensures={"depth-kept": "len(self.contexts) == old(len(self.contexts))"},
+    from_property="bound earlier in the same source by ... walrus",
+)
+HANDLER = Rec("handler", name=Union(NoneT, Str))
+TRY = Obj("Try", handlers=Seq(HANDLER))
+contract(
+    A + "CtxAwareTransformer.visit_Try", "C02", params=dict(self=T_, node=TRY), modifies=["self.contexts"], externals=NAMES_EXT,
+    calls={"CtxAwareTransformer.ctxadd": A + "CtxAwareTransformer.ctxadd"},
+    requires={"inside-a-transform": "len(self.contexts) >= 2"},
+    loops={"for#1": dict(invariant={
+        "bound-so-far": "len(self.contexts) == pre(len(self.contexts)) and forall(lambda j: implies(node.handlers[j].name is not None, node.handlers[j].name in %s), 0, _i)" % TOP,
+        "other-scopes-untouched": "forall(lambda k: self.contexts[k] == pre(self.contexts)[k], 0, len(self.contexts) - 1)",
+        "innermost-scope-only-grows": "forall_str(lambda x: implies(x in pre(self.contexts)[len(self.contexts) - 1], x in %s))" % TOP},
+        havoc_only=[], havoc_exprs=["self.contexts"])},
+    asserts=[dict(before="self.generic_visit(node)", label="every-`except-..-as-name`-is-bound-before-the-bodies-are-visited",
+                  clause="len(self.contexts) == old(len(self.contexts)) and forall(lambda j: implies(node.handlers[j].name is not None, node.handlers[j].name in %s), 0, len(node.handlers)) and %s" % (TOP, SAME_BELOW))],
+    ensures={"depth-kept": "len(self.contexts) == old(len(self.contexts))"},
+    from_property="bound earlier in the same source by ... except",
+)
+TARG = Union(Rec("NameT", id=Str), Opaque("othertarget"))
+DEL = Obj("Delete", targets=Seq(TARG))
+contract(
+    A + "CtxAwareTransformer.visit_Delete", "C02", params=dict(self=T_, node=DEL), modifies=["self.contexts"], externals=NAMES_EXT,
+    config={"isinstance": {"Name": ["NameT"]}},
+    calls={"CtxAwareTransformer.ctxremove": A + "CtxAwareTransformer.ctxremove"},
+    requires={"inside-a-transform": "len(self.contexts) >= 2"},
+    loops={"for#1": dict(invariant={"same-depth-and-only-shrinking": "len(self.contexts) == pre(len(self.contexts)) and "
+                                    "forall(lambda k: forall_str(lambda x: implies(x in self.contexts[k], x in pre(self.contexts)[k])), 0, len(self.contexts))"},
+                         havoc_only=[], havoc_exprs=["self.contexts"])},
+    ensures={"depth-kept": "len(self.contexts) == old(len(self.contexts))"},
+    asserts=[dict(before="self.generic_visit(node)", label="del-never-binds-anything",
+                  clause="forall(lambda k: forall_str(lambda x: implies(x in self.contexts[k], x in old(self.contexts)[k])), 0, len(self.contexts))")],
+    from_property="deleting the name returns later lines to command interpretation (del only ever removes names; which one: ctxremove's contract)",
+)
